@@ -1,12 +1,637 @@
-// Package c07 decides C07 (see /verif/DESIGN.md §7).
+// Package c07 decides C07: the DA-included (final) height is sound, monotone, durable and eventually reached.
 package c07
 
-import "verifharness/vk"
+import (
+	"context"
+	"encoding/binary"
+	"fmt"
+	"math/rand"
+	"os"
+	"strings"
+	"sync"
+	"sync/atomic"
+	"time"
+
+	"verifharness/vk"
+	"verifharness/world"
+)
 
 // Level is the verification level claimed for this property.
 const Level = "exploration"
 
+// Case is one generated schedule.
+type Case struct {
+	ID      int      `json:"id"`
+	Node    string   `json:"node"` // aggregator | fullnode
+	Initial uint64   `json:"initial_height"`
+	Repeat  bool     `json:"repeated_tx_lists"`
+	Actions []string `json:"actions"`
+}
+
+func (c Case) key() string { return fmt.Sprintf("%s i%d r%v %s", c.Node, c.Initial, c.Repeat, strings.Join(c.Actions, " ")) }
+
+const keyD = "/m/d"
+
+func readU64(im *world.Image, key string) (uint64, bool) {
+	raw, ok := im.Get(key)
+	if !ok || len(raw) != 8 {
+		return 0, false
+	}
+	return binary.LittleEndian.Uint64(raw), true
+}
+
+// daIndex scans the DA double: which block heights have a header / data blob, and at which DA heights.
+type daIndex struct {
+	hdr, data map[uint64][]uint64 // block height -> DA heights holding a genuine blob for it
+}
+
+func indexDA(da *world.DADouble, upTo uint64) daIndex {
+	ix := daIndex{map[uint64][]uint64{}, map[uint64][]uint64{}}
+	for dh, blobs := range da.AllBlobs() {
+		if upTo > 0 && dh > upTo {
+			continue
+		}
+		for _, b := range blobs {
+			if h, isData, ok := world.DecodeBlobHeight(b); ok {
+				if isData {
+					ix.data[h] = append(ix.data[h], dh)
+				} else {
+					ix.hdr[h] = append(ix.hdr[h], dh)
+				}
+			}
+		}
+	}
+	return ix
+}
+
+func contains(xs []uint64, x uint64) bool {
+	for _, v := range xs {
+		if v == x {
+			return true
+		}
+	}
+	return false
+}
+
+// obs is the shared monitor state of one node across its processes.
+type obs struct {
+	r       *vk.Run
+	viol    []string
+	mu      sync.Mutex
+	lastD   uint64 // highest DA-included height ever observed (also across restarts)
+	finals  []uint64
+	getD    func() uint64
+	im      *world.Image
+	crashes int
+	finalsAtCrash map[int]bool // index into finals at which a crash happened (a repeat is allowed right after)
+}
+
+func (o *obs) bad(f string, a ...any) {
+	o.mu.Lock()
+	if len(o.viol) < 8 {
+		o.viol = append(o.viol, fmt.Sprintf(f, a...))
+	}
+	o.mu.Unlock()
+}
+
+// onFinal runs at the start of every SetFinal(h): the height must be the next one, must not be persisted or reported yet.
+func (o *obs) onFinal(h uint64) {
+	o.r.Hit("finalize-before-report")
+	d := o.getD()
+	if h != d+1 {
+		o.bad("SetFinal(%d) while the reported DA-included height is %d (must finalize exactly the next height)", h, d)
+	}
+	if p, ok := readU64(o.im, keyD); ok && p >= h {
+		o.bad("SetFinal(%d) called after the DA-included height %d was already persisted", h, p)
+	}
+	o.mu.Lock()
+	n := len(o.finals)
+	if n > 0 {
+		last := o.finals[n-1]
+		switch {
+		case h == last+1:
+		case h == last && o.finalsAtCrash[n]:
+			// the process died between SetFinal and the persist step: finalizing again is the only option
+		default:
+			o.viol = append(o.viol, fmt.Sprintf("SetFinal sequence not consecutive: %d after %v", h, o.finals))
+		}
+	}
+	o.finals = append(o.finals, h)
+	o.mu.Unlock()
+}
+
+// onWrite runs after every durable write of the node.
+func (o *obs) onWrite(rec world.WriteRec) {
+	for i, k := range rec.Keys {
+		if k != keyD {
+			continue
+		}
+		var b [8]byte
+		fmt.Sscanf(rec.Vals[i], "%02x%02x%02x%02x%02x%02x%02x%02x", &b[0], &b[1], &b[2], &b[3], &b[4], &b[5], &b[6], &b[7])
+		v := binary.LittleEndian.Uint64(b[:])
+		o.r.Hit("persist-after-finalize")
+		o.mu.Lock()
+		fin := len(o.finals) > 0 && o.finals[len(o.finals)-1] == v
+		o.mu.Unlock()
+		if !fin {
+			o.bad("DA-included height %d persisted without a preceding SetFinal(%d)", v, v)
+		}
+		if d := o.getD(); d >= v {
+			o.bad("DA-included height %d was reported before it was persisted", v)
+		}
+	}
+}
+
+// observe samples the reported height: monotone, one step at a time is checked through the persist log.
+func (o *obs) observe(chainHeight uint64) uint64 {
+	d := o.getD()
+	o.r.Hit("monotone")
+	if d < o.lastD {
+		o.bad("DA-included height went down: %d after %d", d, o.lastD)
+	}
+	o.lastD = d
+	o.r.Hit("below-chain-height")
+	if d > chainHeight {
+		o.bad("DA-included height %d exceeds the chain height %d", d, chainHeight)
+	}
+	return d
+}
+
+// ---------------------------------------------------------------- aggregator
+
+type agg struct {
+	c     Case
+	ctx   context.Context
+	im    *world.Image
+	exec  *world.ExecDouble
+	seq   *world.SeqDouble
+	da    *world.DADouble
+	keys  world.Keys
+	n     *world.Node
+	l     *world.Loops
+	o     *obs
+	root  string
+	t     time.Time
+	k     int
+	logs  [][]world.WriteRec
+	gapAtCrash bool // a crash happened while accepted heights were not yet included
+	curM  atomic.Pointer[world.Node]
+}
+
+func (a *agg) start() error {
+	dsp := world.NewMemDS(a.im)
+	dsp.OnWrite = a.o.onWrite
+	n, err := world.NewNode(a.ctx, world.NodeOpts{Aggregator: true, InitialHeight: a.c.Initial, RootDir: a.root}, a.keys, dsp, a.exec, a.seq, a.da, nil)
+	if err != nil {
+		return err
+	}
+	a.n = n
+	a.curM.Store(n)
+	a.l = world.StartLoops(a.ctx, n, "daIncluder")
+	return nil
+}
+
+func (a *agg) height() uint64 { h, _ := a.n.Store.Height(a.ctx); return h }
+
+func (a *agg) soundness(d uint64) {
+	ix := indexDA(a.da, 0)
+	for h := a.c.Initial; h <= d; h++ {
+		a.o.r.Hit("sound")
+		if len(ix.hdr[h]) == 0 {
+			a.o.bad("DA-included height is %d but the DA layer never accepted the header of block %d", d, h)
+			return
+		}
+		_, data, err := a.n.Store.GetBlockData(a.ctx, h)
+		if err != nil {
+			a.o.bad("DA-included height %d but block %d is not in the store", d, h)
+			return
+		}
+		if len(data.Txs) > 0 && len(ix.data[h]) == 0 {
+			a.o.bad("DA-included height is %d but the DA layer never accepted the data of non-empty block %d", d, h)
+			return
+		}
+		// recorded DA heights
+		hh, ok1 := readU64(a.im, fmt.Sprintf("/m/rhb/%d/h", h))
+		dd, ok2 := readU64(a.im, fmt.Sprintf("/m/rhb/%d/d", h))
+		a.o.r.Hit("recorded-da-heights")
+		if !ok1 || !ok2 {
+			a.o.bad("block %d is DA-included but its DA heights are not recorded", h)
+			return
+		}
+		if !contains(ix.hdr[h], hh) {
+			a.o.bad("recorded header DA height %d of block %d holds no header blob of that block (blobs are at %v)", hh, h, ix.hdr[h])
+		}
+		if len(data.Txs) > 0 && !contains(ix.data[h], dd) {
+			a.o.bad("recorded data DA height %d of block %d holds no data blob of that block (blobs are at %v)", dd, h, ix.data[h])
+		}
+	}
+}
+
+func (a *agg) do(act string) error {
+	switch {
+	case act == "P" || act == "Pe":
+		a.t = a.t.Add(time.Second)
+		a.k++
+		if act == "Pe" {
+			a.seq.Push(world.SeqResp{Kind: world.SeqEmpty, Time: a.t})
+		} else {
+			tx := fmt.Sprintf("c07-%d-%d", a.c.ID, a.k)
+			if a.c.Repeat {
+				tx = fmt.Sprintf("rep-%d", a.k%2)
+			}
+			a.seq.Push(world.SeqResp{Kind: world.SeqTxs, Time: a.t, Txs: [][]byte{[]byte(tx)}})
+		}
+		return a.n.M.VerifPublishBlock(a.ctx)
+	case strings.HasPrefix(act, "H"), strings.HasPrefix(act, "D"):
+		if o := act[1:]; o != "" {
+			kinds := map[string]world.SubmitOutcome{"p": {Kind: "prefix", Prefix: 1}, "x": {Kind: "error"}, "l": {Kind: "acklost"}, "t": {Kind: "timeout"}}
+			a.da.ScriptSubmit(kinds[o])
+			if o != "p" {
+				// the retry inside the submission helper would succeed at once; keep failing for this iteration
+				for i := 0; i < 40; i++ {
+					a.da.ScriptSubmit(kinds[o])
+				}
+			}
+		}
+		if act[0] == 'H' {
+			_ = a.n.M.VerifSubmitHeadersOnce(a.ctx)
+		} else {
+			_ = a.n.M.VerifSubmitDataOnce(a.ctx)
+		}
+		a.da.ClearSubmitScript()
+		return nil
+	case act == "I":
+		return a.l.SignalBarrier("daIncluder", "daIncluder")
+	case act == "R", act == "C":
+		if err := a.l.Stop(); err != nil {
+			return err
+		}
+		a.logs = append(a.logs, a.n.DS.Log())
+		if act == "R" {
+			if err := a.n.M.SaveCache(); err != nil {
+				return fmt.Errorf("SaveCache: %w", err)
+			}
+		} else {
+			// crash: whatever was accepted but not yet included loses its in-memory marks
+			lh, ld, _, _ := a.n.M.VerifWatermarks()
+			d := a.n.M.GetDAIncludedHeight()
+			if lh > d || ld > d {
+				a.gapAtCrash = true
+			}
+			_ = os.RemoveAll(a.root + "/data/cache")
+			a.o.mu.Lock()
+			a.o.finalsAtCrash[len(a.o.finals)] = true
+			a.o.mu.Unlock()
+		}
+		return a.start()
+	}
+	return fmt.Errorf("unknown action %q", act)
+}
+
+func runAgg(r *vk.Run, c Case) {
+	ctx := context.Background()
+	a := &agg{c: c, ctx: ctx, im: world.NewImage(), exec: world.NewExecDouble(), seq: world.NewSeqDouble(), da: world.NewDADouble(),
+		keys: world.NewKeys("proposer"), t: world.GenesisTime, root: world.TempDir(vk.Root(), "C07-*")}
+	defer os.RemoveAll(a.root)
+	a.o = &obs{r: r, im: a.im, finalsAtCrash: map[int]bool{}}
+	a.o.getD = func() uint64 { return a.curM.Load().M.GetDAIncludedHeight() }
+	a.exec.OnFinal = a.o.onFinal
+	wit := func() any {
+		var calls []string
+		for _, dc := range a.da.Calls() {
+			if dc.Kind == "submit" {
+				calls = append(calls, fmt.Sprintf("%d submit daheight=%d blobs=%d stored=%d acked=%d %s", dc.Seq, dc.Height, len(dc.Blobs), dc.Stored, dc.Acked, dc.Outcome))
+			}
+		}
+		return map[string]any{"case": c, "setfinal_log": a.o.finals, "da_submit_calls": calls}
+	}
+	if err := a.start(); err != nil {
+		r.Violation("startup", err.Error(), wit())
+		return
+	}
+	defer func() { a.l.Stop() }()
+	_ = a.n.M.VerifPublishBlock(ctx) // genesis block
+	actors := map[string]bool{}
+	var dMoved uint64
+	d0 := a.o.observe(a.height())
+	for i, act := range c.Actions {
+		if err := a.do(act); err != nil {
+			if err == world.ErrWatchdog {
+				r.Inconclusive("watchdog")
+				return
+			}
+			a.o.bad("action %d (%s) failed: %v", i, act, err)
+			break
+		}
+		actors[act[:1]] = true
+		d := a.o.observe(a.height())
+		a.soundness(d)
+		dMoved = d - d0
+		if len(a.o.viol) > 0 {
+			break
+		}
+	}
+	// bounded liveness: faults stop; three rounds of (submit headers, submit data, inclusion pass)
+	if len(a.o.viol) == 0 {
+		for i := 0; i < 3; i++ {
+			for _, act := range []string{"H", "D", "I"} {
+				if err := a.do(act); err != nil {
+					if err == world.ErrWatchdog {
+						r.Inconclusive("watchdog")
+						return
+					}
+					a.o.bad("final round action %s failed: %v", act, err)
+				}
+			}
+		}
+		d := a.o.observe(a.height())
+		a.soundness(d)
+		dMoved = d - d0
+		r.Hit("eventually-included")
+		if tip := a.height(); d != tip && len(a.o.viol) == 0 {
+			detail := fmt.Sprintf("every block up to %d is on the DA layer and three inclusion rounds ran, but the DA-included height is %d", tip, d)
+			if a.gapAtCrash {
+				r.Finding("C07-marks-lost-on-crash", "eventually-included", detail+" (the aggregator crashed while accepted blocks were not yet included; their in-memory marks are gone and it never scans DA)", wit())
+			} else {
+				a.o.bad("%s", detail)
+			}
+		}
+	}
+	if len(a.o.viol) > 0 {
+		detail := strings.Join(a.o.viol, " ;; ")
+		if c.Repeat && r.IsKnown("C07-commitment-keyed-marks") && (strings.Contains(detail, "never accepted the data") || strings.Contains(detail, "recorded data DA height")) {
+			r.Finding("C07-commitment-keyed-marks", "sound", detail, wit())
+		} else {
+			r.Violation(firstWord(a.o.viol[0]), detail, wit())
+		}
+	}
+	r.Count("setfinal_calls", int64(len(a.o.finals)))
+	r.Eval(c.key(), dMoved >= 2 && len(actors) >= 3, c)
+}
+
+func firstWord(s string) string {
+	switch {
+	case strings.Contains(s, "SetFinal"):
+		return "finalize-order"
+	case strings.Contains(s, "went down"):
+		return "monotone"
+	case strings.Contains(s, "never accepted"), strings.Contains(s, "not been observed"):
+		return "sound"
+	case strings.Contains(s, "recorded"):
+		return "recorded-da-heights"
+	case strings.Contains(s, "but the DA-included height is"):
+		return "eventually-included"
+	}
+	return "da-inclusion"
+}
+
+func genAgg(rng *rand.Rand, id int, repeat bool, allowCrash bool) Case {
+	c := Case{ID: id, Node: "aggregator", Initial: []uint64{1, 1, 3}[rng.Intn(3)], Repeat: repeat}
+	n := 12 + rng.Intn(30)
+	for i := 0; i < n; i++ {
+		switch p := rng.Intn(100); {
+		case p < 25:
+			c.Actions = append(c.Actions, "P")
+		case p < 37:
+			c.Actions = append(c.Actions, "Pe")
+		case p < 55:
+			c.Actions = append(c.Actions, "H"+[]string{"", "", "", "p", "x", "l", "t"}[rng.Intn(7)])
+		case p < 73:
+			c.Actions = append(c.Actions, "D"+[]string{"", "", "", "p", "x", "l", "t"}[rng.Intn(7)])
+		case p < 92:
+			c.Actions = append(c.Actions, "I")
+		case p < 97:
+			c.Actions = append(c.Actions, "R")
+		default:
+			if allowCrash {
+				c.Actions = append(c.Actions, "C")
+			} else {
+				c.Actions = append(c.Actions, "R")
+			}
+		}
+	}
+	return c
+}
+
+// ---------------------------------------------------------------- full node
+
+func runFull(r *vk.Run, p *world.Produced, c Case, acts []world.Action) {
+	ctx := context.Background()
+	root := world.TempDir(vk.Root(), "C07-*")
+	defer os.RemoveAll(root)
+	f, err := world.NewFN(ctx, p, root)
+	if err != nil {
+		r.Violation("startup", err.Error(), c)
+		return
+	}
+	defer func() { f.L.Stop() }()
+	o := &obs{r: r, im: f.Im, finalsAtCrash: map[int]bool{}}
+	var cur atomic.Pointer[world.Node]
+	cur.Store(f.N)
+	o.getD = func() uint64 { return cur.Load().M.GetDAIncludedHeight() }
+	f.Exec.OnFinal = o.onFinal
+	f.N.DS.OnWrite = o.onWrite
+	wit := func() any { return map[string]any{"case": c, "setfinal_log": o.finals} }
+	sound := func(d uint64) {
+		// observed on DA = at a DA height the scan has passed in the current or an earlier process; the
+		// double's current height bounds everything that can have been scanned
+		ix := indexDA(f.DA, f.DA.Height())
+		for h := p.Spec.Initial; h <= d; h++ {
+			r.Hit("sound")
+			if len(ix.hdr[h]) == 0 {
+				o.bad("DA-included height is %d but the header of block %d has not been observed on the DA layer", d, h)
+				return
+			}
+			if len(p.Txs[p.Idx(h)]) > 0 && len(ix.data[h]) == 0 {
+				o.bad("DA-included height is %d but the data of non-empty block %d has not been observed on the DA layer", d, h)
+				return
+			}
+			hh, ok1 := readU64(f.Im, fmt.Sprintf("/m/rhb/%d/h", h))
+			dd, ok2 := readU64(f.Im, fmt.Sprintf("/m/rhb/%d/d", h))
+			r.Hit("recorded-da-heights")
+			if !ok1 || !ok2 {
+				o.bad("block %d is DA-included but its DA heights are not recorded", h)
+				return
+			}
+			if !contains(ix.hdr[h], hh) {
+				o.bad("recorded header DA height %d of block %d holds no header blob of that block (blobs are at %v)", hh, h, ix.hdr[h])
+			}
+			if len(p.Txs[p.Idx(h)]) > 0 && !contains(ix.data[h], dd) {
+				o.bad("recorded data DA height %d of block %d holds no data blob of that block (blobs are at %v)", dd, h, ix.data[h])
+			}
+		}
+	}
+	chainH := func() uint64 { h, _ := f.N.Store.Height(ctx); return h }
+	actors := map[string]bool{}
+	d0 := o.observe(chainH())
+	var dMoved uint64
+	step := func(a world.Action) bool {
+		if a.Kind == "crash-restart" {
+			o.mu.Lock()
+			o.finalsAtCrash[len(o.finals)] = true
+			o.mu.Unlock()
+		}
+		if err := f.Do(a); err != nil {
+			if err == world.ErrWatchdog {
+				r.Inconclusive("watchdog")
+				return false
+			}
+			o.bad("action %s failed: %v", a, err)
+			return false
+		}
+		if a.Kind == "restart" || a.Kind == "crash-restart" {
+			cur.Store(f.N)
+			f.N.DS.OnWrite = o.onWrite
+		}
+		actors[a.Kind] = true
+		d := o.observe(chainH())
+		sound(d)
+		dMoved = d - d0
+		return len(o.viol) == 0
+	}
+	ok := true
+	for _, a := range acts {
+		if !step(a) {
+			ok = false
+			break
+		}
+	}
+	if ok {
+		// everything is on DA (the schedule placed every blob): a complete scan and three inclusion passes
+		for _, a := range []world.Action{{Kind: "scan"}, {Kind: "include"}, {Kind: "include"}, {Kind: "include"}} {
+			if !step(a) {
+				ok = false
+				break
+			}
+		}
+	}
+	if ok {
+		r.Hit("eventually-included")
+		if d := o.getD(); d != p.Tip() {
+			o.bad("all blobs up to %d are on the DA layer and were scanned, three inclusion passes ran, but the DA-included height is %d (chain height %d)", p.Tip(), d, chainH())
+		}
+	}
+	if len(o.viol) > 0 {
+		r.Violation(firstWord(o.viol[0]), strings.Join(o.viol, " ;; "), wit())
+	}
+	r.Count("setfinal_calls", int64(len(o.finals)))
+	r.Eval(c.key(), dMoved >= 2 && len(actors) >= 2, c)
+}
+
+func genFull(rng *rand.Rand, p *world.Produced, id int) (Case, []world.Action) {
+	var items []world.Item
+	for i := range p.Heights {
+		items = append(items, world.Item{I: i})
+		if len(p.Txs[i]) > 0 {
+			items = append(items, world.Item{D: true, I: i})
+		}
+	}
+	rng.Shuffle(len(items), func(a, b int) { items[a], items[b] = items[b], items[a] })
+	// mostly near-ordered placement so that inclusion progresses while blobs still arrive
+	if rng.Intn(3) > 0 {
+		for i := 1; i < len(items); i++ {
+			for j := i; j > 0 && items[j].I+2 < items[j-1].I; j-- {
+				items[j], items[j-1] = items[j-1], items[j]
+			}
+		}
+	}
+	var acts []world.Action
+	for len(items) > 0 {
+		k := 1 + rng.Intn(4)
+		if k > len(items) {
+			k = len(items)
+		}
+		acts = append(acts, world.Action{Kind: "da", DA: items[:k]})
+		items = items[k:]
+		switch p := rng.Intn(20); {
+		case p < 8:
+			acts = append(acts, world.Action{Kind: "include"})
+		case p < 10:
+			acts = append(acts, world.Action{Kind: "restart"})
+		case p < 12:
+			acts = append(acts, world.Action{Kind: "crash-restart"})
+		case p < 13:
+			acts = append(acts, world.Action{Kind: "da"}) // empty DA height
+		}
+	}
+	c := Case{ID: id, Node: "fullnode", Initial: p.Spec.Initial}
+	for _, a := range acts {
+		c.Actions = append(c.Actions, a.String())
+	}
+	return c, acts
+}
+
 // Run is the check entry point.
 func Run(r *vk.Run) {
-	r.Rule = "not implemented yet"
+	world.Silence()
+	r.Rule = "seeded interleavings on (a) a real aggregator: {produce non-empty/empty, one header-submission iteration, one data-submission iteration (each with outcome accept | prefix | error | ack lost | timed out), inclusion pass of the real DAIncluderLoop, clean restart (SaveCache), crash restart}; (b) a real full node fed through DA only: blobs of a proposer chain placed into DA heights in generated groupings and orders, scans by the real RetrieveLoop, inclusion passes, clean and crash restarts. Monitors at the SetFinal call and at the persist write give the order finalize -> persist -> report; soundness is judged against the contents of the DA double; bounded liveness = three clean rounds after faults stop. non-trivial = DA-included height advanced >= 2 and >= 3 (aggregator) / >= 2 (full node) kinds of actors interleaved; distinct by action list. Separate trigger regions: aggregator crash with accepted-but-not-included blocks (C07-marks-lost-on-crash), repeated tx lists (C07-commitment-keyed-marks)"
+	r.Assume("DA double: accepted = stored by the double; a full node's 'observed' = blob present at a DA height not above the double's current height")
+	r.Assume("SetFinal never fails in these runs (its failure terminates the inclusion loop by design)")
+	rng := r.Rand("cases")
+	type job struct {
+		c    Case
+		p    *world.Produced
+		acts []world.Action
+	}
+	var jobs []job
+	id := 0
+	nAgg := r.N(250, 6000)
+	for i := 0; i < nAgg; i++ {
+		jobs = append(jobs, job{c: genAgg(rng, id, false, false)})
+		id++
+	}
+	// trigger regions
+	for i := 0; i < r.N(40, 400); i++ {
+		jobs = append(jobs, job{c: genAgg(rng, id, false, true)})
+		id++
+	}
+	for i := 0; i < r.N(30, 300); i++ {
+		jobs = append(jobs, job{c: genAgg(rng, id, true, false)})
+		id++
+	}
+	ctx := context.Background()
+	keys := world.NewKeys("proposer")
+	for ci := 0; ci < r.N(8, 60); ci++ {
+		n := 5 + rng.Intn(8)
+		spec := world.ChainSpec{Initial: 1}
+		for b := 0; b < n; b++ {
+			if rng.Intn(3) == 0 {
+				spec.Blocks = append(spec.Blocks, nil)
+			} else {
+				spec.Blocks = append(spec.Blocks, [][]byte{[]byte(fmt.Sprintf("c07f-%d-%d", ci, b))})
+			}
+		}
+		p, err := world.ProduceChain(ctx, spec, keys)
+		if err != nil {
+			r.Violation("producer", err.Error(), nil)
+			return
+		}
+		for k := 0; k < r.N(15, 60); k++ {
+			c, acts := genFull(rng, p, id)
+			id++
+			jobs = append(jobs, job{c: c, p: p, acts: acts})
+		}
+	}
+	r.Require("eventually-included", int64(len(jobs)/2))
+	r.Require("finalize-before-report", 200)
+	var wg sync.WaitGroup
+	ch := make(chan job)
+	for w := 0; w < 14; w++ {
+		wg.Add(1)
+		go func() {
+			defer wg.Done()
+			for j := range ch {
+				if j.p != nil {
+					runFull(r, j.p, j.c, j.acts)
+				} else {
+					runAgg(r, j.c)
+				}
+			}
+		}()
+	}
+	for _, j := range jobs {
+		ch <- j
+	}
+	close(ch)
+	wg.Wait()
 }
